@@ -136,3 +136,27 @@ def depends_on(term, pred) -> bool:
         if pred(x):
             return True
     return False
+
+
+def ring_coverage(idx, loop_iters):
+    """Does the generic child index idx = key[0]*D + X enumerate *all* D slots of the key as its loop runs?
+
+    True for X = t and X = (e + t) % D with t a loop variable over range(D) and e independent of t."""
+    li = linear_index(idx)
+    if li is None or li[0] != "scaled":
+        return False
+    D, rest = li[1], li[2]
+
+    def full_loopvar(t):
+        return t[0] == "loopvar" and loop_iters.get(t[1]) == ("call", ("builtin", "range"), (D,))
+    if full_loopvar(rest):
+        return True
+    if rest[0] == "binop" and rest[1] == "Mod" and rest[3] == D:
+        inner = rest[2]
+        if full_loopvar(inner):
+            return True
+        if inner[0] == "binop" and inner[1] == "Add":
+            for a, b in ((inner[2], inner[3]), (inner[3], inner[2])):
+                if full_loopvar(b) and not any(x[0] == "loopvar" and x[1] == b[1] for x in subterms(a)):
+                    return True
+    return False
